@@ -91,7 +91,7 @@ def run(ctx, rep, rule):
             key = f"{fn_key(b)}/{strip_crate(c)}/{per_fn_ord[k]}"
             rep.check(rule, key, ok, where=where(b, bb),
                       what=f"{fn_key(b)}: Result of {strip_crate(c)} (effects {sorted({e[0] for e in es})}) is {kind}" + (f" via {via}" if via else "") + (f" [exception: {reason}]" if reason else ""))
-    rep.floor(rule, "storage-effect call sites returning Result", nsites, 60)
+    rep.floor(rule, "storage-effect call sites returning Result", nsites, 40)
 
 
 def is_storage_layer(b):
@@ -187,4 +187,4 @@ def run_items(ctx, rep, rule):
                       what=f"{k}: items of {strip_crate(callee(t))[:70]} are propagated with {how}" if how else
                            (f"{k}: [exception: {why}]" if why else
                             f"{k}: the Err case of an item read from the repository is handled locally (logged/skipped) instead of propagated: an unreadable or tampered file is silently left out"))
-    rep.floor(rule, "loops over RusticResult items", n, 10)
+    rep.floor(rule, "loops over RusticResult items", n, 6)
